@@ -29,11 +29,17 @@ type C20Query struct {
 	// Form: "" flat select; "derived": SELECT * FROM (<select>) x; "cte": WITH c AS (<select>) SELECT * FROM c.
 	// Variables are read and written inside the nested query.
 	Form string `json:"form,omitempty"`
+	// SameAs > 0: this step executes the Query object of step SameAs (1-based) once more.
+	SameAs int `json:"same_as,omitempty"`
+	// Pre: entries the caller writes into the shared variable map right before this step runs.
+	Pre map[string]any `json:"pre,omitempty"`
 }
 
 type C20Case struct {
-	Init    map[string]any `json:"init"`
-	Queries []C20Query     `json:"queries"`
+	// PreBuild: every Query object is constructed (with the shared map) before the first one runs.
+	PreBuild bool           `json:"prebuild,omitempty"`
+	Init     map[string]any `json:"init"`
+	Queries  []C20Query     `json:"queries"`
 }
 
 var c20NumKeys = []string{"k1", "k2"}
@@ -120,7 +126,35 @@ func genC20(t *rapid.T) any {
 			q.Form = rapid.SampledFrom([]string{"derived", "cte"}).Draw(t, ql+".form")
 			q.Items = append(q.Items, C20Item{Kind: "col", Val: sq.Col("a"), Alias: "ca"})
 		}
+		if qi > 0 && rapid.IntRange(0, 5).Draw(t, ql+".again") == 0 {
+			// the Query object of an earlier step runs once more (it must start from the registers as they are now)
+			j := rapid.IntRange(1, qi).Draw(t, ql+".sameas")
+			for c.Queries[j-1].SameAs > 0 {
+				j = c.Queries[j-1].SameAs
+			}
+			// (nested forms are evaluated when the query is constructed - when exactly is not part of the statement)
+			if c.Queries[j-1].Form == "" {
+				q = c.Queries[j-1]
+				q.SameAs, q.Pre = j, nil
+			}
+		}
+		if qi > 0 && rapid.IntRange(0, 5).Draw(t, ql+".pre") == 0 {
+			k := rapid.SampledFrom([]string{"k1", "k2", "k3"}).Draw(t, ql+".prekey")
+			if k == "k3" {
+				q.Pre = map[string]any{k: rapid.SampledFrom([]string{"", "w"}).Draw(t, ql+".prestr")}
+			} else {
+				q.Pre = map[string]any{k: rapid.SampledFrom([]float64{0, 3, -8, 41}).Draw(t, ql+".prenum")}
+			}
+		}
 		c.Queries = append(c.Queries, q)
+	}
+	c.PreBuild = rapid.IntRange(0, 2).Draw(t, "prebuild") == 0
+	for _, q := range c.Queries {
+		if q.Form != "" {
+			// a derived table / CTE is evaluated when the query is constructed; the statement orders
+			// evaluations, not constructions, so histories that separate the two use flat queries only
+			c.PreBuild = false
+		}
 	}
 	return c
 }
@@ -167,8 +201,31 @@ func checkC20(c *C20Case) Result {
 	writer := map[string]stamp{}
 	crossRead := false
 	var trace []string
+	built := make([]*Prepared, len(c.Queries))
+	build := func(i int) {
+		if j := c.Queries[i].SameAs; j > 0 {
+			built[i] = built[j-1]
+			return
+		}
+		built[i] = Build(map[string]any{"t": val.Copy(c.Queries[i].Rows)}, c.Queries[i].sql(), Opts{}, genql.WithVars(live))
+	}
+	if c.PreBuild {
+		for i := range c.Queries {
+			build(i)
+		}
+		res.Labels = append(res.Labels, "all-queries-built-before-the-first-runs")
+	}
 	for qi := range c.Queries {
 		q := &c.Queries[qi]
+		for k, v := range q.Pre {
+			live[k] = v
+			model[k] = v
+			writer[k] = stamp{-1, -1}
+			res.Labels = append(res.Labels, "caller-writes-between-queries")
+		}
+		if q.SameAs > 0 {
+			res.Labels = append(res.Labels, "query-object-executed-again")
+		}
 		env := &sq.Env{Funcs: map[string]func([]any) (any, error){
 			"getvar": func(a []any) (any, error) {
 				k, _ := a[0].(string)
@@ -243,10 +300,21 @@ func checkC20(c *C20Case) Result {
 			want = append(want, out)
 		}
 		sql := q.sql()
-		doc := map[string]any{"t": val.Copy(q.Rows)}
-		got := Run(doc, sql, Opts{}, genql.WithVars(live))
+		if built[qi] == nil {
+			build(qi)
+		}
+		got := built[qi].Exec()
 		res.Execs++
-		trace = append(trace, fmt.Sprintf("query %d: %s over %s", qi+1, sql, val.JSON(q.Rows)))
+		if len(q.Pre) > 0 {
+			trace = append(trace, fmt.Sprintf("caller writes %s into the variable map", val.JSON(q.Pre)))
+		}
+		how := ""
+		if q.SameAs > 0 {
+			how = fmt.Sprintf(" (the Query object of query %d, executed again)", q.SameAs)
+		} else if c.PreBuild {
+			how = " (constructed before query 1 ran)"
+		}
+		trace = append(trace, fmt.Sprintf("query %d%s: %s over %s", qi+1, how, sql, val.JSON(q.Rows)))
 		ctx := func() string { return strings.Join(trace, "\n  ") + "\n  initial variables " + val.JSON(c.Init) }
 		if !got.OK() {
 			res.Violation = fmt.Sprintf("%s\n  expected rows %s, got %s", ctx(), val.JSON(want), got.Describe())
